@@ -4,6 +4,7 @@ run_model_no_trade driven with the per-country computation replaced at the seam 
 deterministic stand-in; every selection pattern (absent / named / '!'-named per country) over a 4-country universe
 x 5 fraction tables (two of them with failing countries); the same oracle on real, unstubbed runs as conformance of the stand-in."""
 import itertools
+import os
 
 from .. import common, options, supplies
 from ..common import violation
@@ -37,7 +38,7 @@ def expected_selection(all_isos, lst):
     return [i for i in all_isos if i in named]
 
 
-def check_call(Runner, tab, lst, table, real=False):
+def check_call(Runner, tab, lst, table, real=False, save=False):
     np = supplies._S["np"]
     isos = list(tab["iso3"])
     idx = {iso: i for i, iso in enumerate(isos)}
@@ -67,14 +68,14 @@ def check_call(Runner, tab, lst, table, real=False):
                                  add_map_slide_to_pptx=False, scenario_option=opts, countries_list=shared, return_results=True)
             first_calls = list(calls)
             del calls[:]
-        world, net_pop, net_pop_fed, results = r.run_model_no_trade(title="c15", create_pptx_with_all_countries=False, show_country_figures=False,
+        world, net_pop, net_pop_fed, results = r.run_model_no_trade(title="c15_%d" % os.getpid(), create_pptx_with_all_countries=False, show_country_figures=False,
                                                                    show_map_figures=False, add_map_slide_to_pptx=False, scenario_option=opts,
-                                                                   countries_list=shared, return_results=True)
+                                                                   countries_list=shared, return_results=True, **({"save_all_results": True} if save else {}))
     sel = expected_selection(isos, lst)
     pop = {row["iso3"]: float(row["population"]) for _, row in tab.iterrows()}
     name = {row["iso3"]: row["country"] for _, row in tab.iterrows()}
     key = {"selection": list(lst), "table": table, "real": real}
-    rp = {"selection": list(lst), "table": table, "real": real}
+    rp = {"selection": list(lst), "table": table, "real": real, "save": save}
     vs = []
     if real:
         fr = dict(calls)
@@ -103,11 +104,12 @@ def check_call(Runner, tab, lst, table, real=False):
 
 
 def job(j):
-    lst, table, real = j
+    lst, table, real = j[:3]
+    save = len(j) > 3 and j[3]
     supplies.init()
     with common.quiet():
         from src.scenarios.run_model_no_trade import ScenarioRunnerNoTrade
-    vs, agg = check_call(ScenarioRunnerNoTrade, supplies._S["tab"], lst, table, real)
+    vs, agg = check_call(ScenarioRunnerNoTrade, supplies._S["tab"], lst, table, real, save)
     return {"v": vs, "agg": agg, "n": len(expected_selection(list(supplies._S["tab"]["iso3"]), lst))}
 
 
@@ -124,7 +126,8 @@ def duplicate_patterns():
 
 def run(tier, seed):
     jobs = [(p, t, False) for p in list(patterns()) + duplicate_patterns() for t in range(5)]
-    real = [(("USA", "LUX"), 0, True), (("ARG", "!USA"), 0, True), (("!USA",) if tier == "thorough" else ("SWT",), 0, True)]
+    real = [(("USA", "LUX"), 0, True), (("ARG", "!USA"), 0, True), (("!USA",) if tier == "thorough" else ("SWT",), 0, True),
+            (("LUX", "SWT"), 0, True, True)]          # the last one also asks for the per-country tables to be saved (as the web front end does)
     res = common.pmap(job, jobs + real, init_fn=supplies.init, chunksize=1)
     vs = [v for r in res for v in r["v"]]
     cov = {"executions": len(res), "states": sum(r["n"] for r in res), "transitions": sum(r["n"] for r in res),
@@ -140,4 +143,4 @@ def run(tier, seed):
 
 
 def replay(rp):
-    return job((tuple(rp["selection"]), rp["table"], rp["real"]))["v"]
+    return job((tuple(rp["selection"]), rp["table"], rp["real"], rp.get("save", False)))["v"]
